@@ -43,6 +43,8 @@ func genC12Pair(r *kernel.Rand) *kernel.Scenario {
 	c["ctx_ms"] = 15000
 	c["accept_pct"] = 100
 	c["senderr_pm"] = int64([]int{20, 50, 120}[r.Intn(3)]) // per mille of the messages
+	// this share (per mille) of the failing sends stalls until the sender's context ends
+	c["send_stall_pm"] = int64([]int{0, 300, 1000}[r.Intn(3)])
 	return sc
 }
 
@@ -53,6 +55,7 @@ func execC12Pair(t *testing.T, sc *kernel.Scenario, trace bool) *kernel.Result {
 		installYields(s)
 		defer removeYields()
 		pm := float64(sc.Cfg("senderr_pm", 50)) / 1000
+		p.w.Bus.StallSendP = float64(sc.Cfg("send_stall_pm", 0)) / 1000
 		faults := 0
 		arm := func() {
 			p.w.Bus.FailSend = func(from, to string, e *wire.Envelope) bool {
